@@ -21,6 +21,7 @@ const preamble = `(set-option :produce-models true)
 (declare-datatypes ((Slice 0)) (((mk_slice (s_arr Int) (s_off Int) (s_len Int) (s_cap Int)))))
 (declare-fun typeof (Int) Int)
 (declare-fun idx (Int Int) Int)
+(declare-fun root (Int) Int)
 (assert (forall ((a Int) (b Int)) (! (= (idx a b) (+ a b)) :pattern ((idx a b)))))
 (define-fun wraps ((x Int) (m Int) (h Int)) Int (- (mod (+ x h) m) h))
 (define-fun go_div ((x Int) (y Int)) Int (ite (>= x 0) (ite (> y 0) (div x y) (- (div x (- y)))) (ite (> y 0) (- (div (- x) y)) (div (- x) (- y)))))
@@ -150,7 +151,14 @@ func (vc *VC) WriteQuery(o *Obl, dir string, seq int, negate bool) (string, erro
 		b.WriteString(d)
 		b.WriteByte('\n')
 	}
+	needRoot := vc.useRoot || o.Kind == "frame"
+	if needRoot {
+		b.WriteString("(assert (forall ((x Int)) (! (=> (> x 0) (= (root x) x)) :pattern ((root x)))))\n")
+	}
 	for _, f := range vc.facts {
+		if f.root && !needRoot {
+			continue
+		}
 		if f.blk >= 0 {
 			if !vc.anc[o.blk][f.blk] {
 				continue
